@@ -23,7 +23,13 @@ func init() { Registry["C18"] = runC18 }
 type c18Cmd struct {
 	Caller string `json:"caller"`
 	FailN  int    `json:"fail_n"` // the handler fails the first FailN deliveries
+	Empty  bool   `json:"empty"`  // ... with an error whose text is empty
 }
+
+type c18EmptyErr struct{}
+
+func (c18EmptyErr) Error() string { return "" }
+
 type c18Res struct {
 	Caller string `json:"caller"`
 	N      int    `json:"n"`
@@ -86,6 +92,12 @@ func runC18(c *Ctx) error {
 		}
 		cases = append(cases, c18Case{Class: "timeout", AckErrors: ack, Timeout: 60 * time.Millisecond,
 			Callers: []c18Caller{{"c1", "drain", 2, false}, {"c2", "noread", 2, false}, {"c3", "readone", 1, false}}})
+		// a request whose handler never succeeds keeps producing replies (and other requests keep the topic busy): the time-out ends the listener all the same
+		cases = append(cases, c18Case{Class: "timeout-busy-topic", AckErrors: false, Timeout: 80 * time.Millisecond,
+			Callers: []c18Caller{{"c1", "drain", 100000, false}, {"c2", "noread", 100000, false}, {"c3", "sendwithreply", 0, false}}})
+		// a handler error with an empty text is still an error
+		cases = append(cases, c18Case{Class: "empty-error-text", AckErrors: ack,
+			Callers: []c18Caller{{"c1e", "drain", 1, false}, {"c2e", "sendwithreply", 1, false}, {"c3", "drain", 1, false}}})
 		// the publish of the reply fails once: the command must be Nacked and redelivered whatever AckCommandErrors says
 		for _, fail := range []int{0, 1} {
 			cases = append(cases, c18Case{Class: "reply-publish-fails", AckErrors: ack, Callers: []c18Caller{{"c1", "drain", fail, true}, {"c2", "readone", 0, false}}})
@@ -272,6 +284,9 @@ func c18Body(r *tr.Run, cs c18Case) {
 		ok := n > cmd.FailN
 		r.Emit("handled", "c", cmd.Caller, "n", n, "ok", ok)
 		if !ok {
+			if cmd.Empty {
+				return c18Res{cmd.Caller, n}, c18EmptyErr{}
+			}
 			return c18Res{cmd.Caller, n}, errors.New("scripted handler error")
 		}
 		return c18Res{cmd.Caller, n}, nil
@@ -372,7 +387,7 @@ func c18Foreign(r *tr.Run, name string, bus *cqrs.CommandBus, backend requestrep
 		if len(rep.HandlerResult) > 0 && rep.HandlerResult[0] != from {
 			from = "mixed:" + rep.HandlerResult[0] + "/" + from
 		}
-		r.Emit("reply", "c", name, "from", from, "n", n, "ok", rep.Error == nil, "errtext", et)
+		r.Emit("reply", "c", name, "from", from, "n", n, "ok", rep.Error == nil, "errtext", et, "empty", false)
 	}
 	select {
 	case rep, ok := <-ch:
@@ -408,7 +423,7 @@ func atoiSafe(s string) int {
 func c18Caller1(r *tr.Run, cs c18Case, cl c18Caller, bus *cqrs.CommandBus, backend requestreply.Backend[c18Res], finished chan struct{}) {
 	ctx, cancelCtx := context.WithCancel(context.Background())
 	defer cancelCtx()
-	cmd := &c18Cmd{Caller: cl.Name, FailN: cl.FailN}
+	cmd := &c18Cmd{Caller: cl.Name, FailN: cl.FailN, Empty: strings.HasSuffix(cl.Name, "e")}
 	logReply := func(rep requestreply.Reply[c18Res]) {
 		var te requestreply.ReplyTimeoutError
 		if rep.Error != nil && errors.As(rep.Error, &te) {
@@ -426,7 +441,7 @@ func c18Caller1(r *tr.Run, cs c18Case, cl c18Caller, bus *cqrs.CommandBus, backe
 		if rep.HandlerResult.Caller != "" && rep.HandlerResult.Caller != from {
 			from = "mixed:" + rep.HandlerResult.Caller + "/" + from
 		}
-		r.Emit("reply", "c", cl.Name, "from", from, "n", n, "ok", rep.Error == nil, "errtext", et)
+		r.Emit("reply", "c", cl.Name, "from", from, "n", n, "ok", rep.Error == nil, "errtext", et, "empty", strings.HasSuffix(from, "e"))
 	}
 	if cl.Behav == "sendwithreply" {
 		sctx, scancel := context.WithTimeout(ctx, 2*time.Second)
